@@ -724,6 +724,15 @@ func (fv *FuncVC) doReturn(r *ssa.Return) {
 		}
 		fv.oblige("post", label, t, r.Pos(), c.Src)
 	}
+	// assert clauses: conditions on the exit state that are checked but not exported
+	for k, c := range fc.Asserts {
+		t := env.boolExpr(c.E, c.Pos)
+		label := fmt.Sprintf("%d", k)
+		if c.Name != "" {
+			label = c.Name
+		}
+		fv.oblige("check", label, t, r.Pos(), c.Src)
+	}
 	fv.checkFrame(env, r.Pos())
 }
 
